@@ -261,9 +261,9 @@ PROPS["C16"] = dict(
           "and Next, which may legitimately wait, get a context that is cancelled after a grace period. interleavings: 2..4 goroutines with seeded "
           "scripts racing Close with the other calls, then calls after the Close completed must return the closed error; pubsub-shutdown: "
           "receiver on a real libp2p host + gossip topic, 1..3 concurrent closers, watcher goroutine must be gone; host-without-topic: a "
-          "receiver created with a libp2p host and no topic runs seeded call sequences around a Close. The sequences run once without and once with an allow filter that rejects the announcing peer. Sub-check close-wakes-blocked-calls: 1..3 Direct calls blocked on a full buffer, or Next calls on an empty one, with contexts that are never cancelled; 1..2 closers; every blocked call must return (hang rule applied to the blocked call itself) with the closed error. Sub-check calls-while-allow-callback-runs parks a Direct call inside the application's allow callback and makes the other calls meanwhile; a third of the pubsub shutdowns stop the shared pubsub before the receiver is closed. Sub-check resend-without-topic-peers: a receiver with WithResend(true) on a host that has no topic peers (topic created by the receiver, or given); Direct calls with contexts that are never cancelled must return and be delivered, also when Close races with them. distinct_nontrivial = "
+          "receiver created with a libp2p host and no topic runs seeded call sequences around a Close. The sequences run once without and once with an allow filter that rejects the announcing peer. Sub-check close-wakes-blocked-calls: 1..3 Direct calls blocked on a full buffer, or Next calls on an empty one, with contexts that are never cancelled; 1..2 closers; every blocked call must return (hang rule applied to the blocked call itself) with the closed error. Sub-check calls-while-allow-callback-runs parks a Direct call inside the application's allow callback and makes the other calls meanwhile; a third of the pubsub shutdowns stop the shared pubsub before the receiver is closed. Sub-check resend-without-topic-peers: a receiver with WithResend(true) on a host that has no topic peers (topic created by the receiver, or given); Direct calls with contexts that are never cancelled must return and be delivered, also when Close races with them. A third of the host-without-topic runs use the converse receiver (a ready-made topic, no host). Sub-check uncache-direct-stress: 2..5 goroutines x 300 Direct and 2..5 goroutines x 3000 UncacheCid on three CIDs with one consumer; every call must return and the Close that follows must return (a phase that does not finish while Close does return is inconclusive). distinct_nontrivial = "
           "distinct sequences / script sets."),
-    floors={"quick": {"resend_receivers_without_topic_peers": 6, "calls_made_while_allow_callback_ran": 10, "sequences_with_repeated_close": 50, "concurrent_runs": 250, "pubsub_shutdowns": 4, "gossip_announcements_handled_before_close": 8, "host_without_topic_runs": 10, "blocked_calls_woken_by_close": 25, "sequences_with_rejecting_allow_filter": 100}},
+    floors={"quick": {"resend_receivers_without_topic_peers": 6, "calls_made_while_allow_callback_ran": 10, "sequences_with_repeated_close": 50, "concurrent_runs": 250, "pubsub_shutdowns": 4, "gossip_announcements_handled_before_close": 8, "host_without_topic_runs": 10, "topic_without_host_runs": 3, "stress_runs": 4, "stress_calls_returned": 20000, "blocked_calls_woken_by_close": 25, "sequences_with_rejecting_allow_filter": 100}},
     watchdog_s={"quick": 900, "thorough": 7200},
     gomaxprocs=4,
     level_text=("Exploration (sequential part exhaustive to the stated length): every call is observed to return; hangs are decided "
